@@ -15,6 +15,7 @@ DECIDES = ('the control points looked up at a parameter are span - degree + i, i
            'INTERSECT under the distance test and SKEW otherwise, and every tolerance-taking callee receives the caller\'s tolerance (RS1, TF1).')
 NOT_DECIDED = 'the numerical values of ray parameters, convex hull output, voxel occupancy against sampled points, behaviour exactly on boundaries: numerical/geometric.'
 TECHNIQUE = 'polynomial identities, comparison-operator lattice, branch equivalence, reaching definitions, tolerance-forwarding rule'
+DECIDES += (' [ORDER TYPES, exact] WN2: wn_poly returns bool(sum over edges of [V_i.y <= P.y < V_i+1.y and P left] - [V_i+1.y <= P.y < V_i.y and P right]) for all 1215 (vertex-height order type, query height, side assignment) cases of a closed three-edge polygon; VX3 / AG52: voxelisation per element and serial = parallel (AL7 only corroborates).')
 
 
 def site(fi, node=None):
